@@ -54,6 +54,11 @@ CHECKS["C15"] = dict(
    text="400 (4000) seeded closure-heavy programs (>= 3 parameters/locals/closures, captured and pass-through variables in shuffled textual order, named function expressions, arguments, shadowing) and the whole 383-program corpus are evaluated on fresh contexts under 16 (72) hash seeds, forward/reversed/shuffled orders, after a context that mutated built-ins, and twice in a row; every outcome vector (value, error class and message, log) must be identical, and each generated program must also produce the value computed by the generator.",
    note="Programs stopped by the wall-clock time limit are excluded (clock dependent by definition). Math.random/Date.now are never generated and filtered from the corpus.",
    ref="4/C15")
+CHECKS["C03"] = dict(
+   technique="metamorphic name probing (implementation attribute names vs a control name through 27 access forms), a value-typing invariant observed by an exposed host function over every discovered built-in call and corpus program, and host-call accounting",
+   text="(a) For 31 receiver kinds x every attribute name of every implementation class (collected reflectively), the Python dunder vocabulary and fresh names, the observation through read/typeof/in/hasOwnProperty/keys/for-in/call/new/instanceof/stringify/prototype use/delete/write-then-read and dot forms must equal the observation for a certainly-unknown name, unless ES defines the name for that receiver kind. (b) Every result of every discovered built-in member on adversarial arguments, and everything reachable from the globals of 383 corpus programs, is passed to inspect(): only JS primitives, JSObject-family objects, JSFunctions and microjs-defined or exposed callables may appear; eval/get results are type-checked likewise. (c) Exposed functions in 25 non-calling positions are never invoked and in calling positions exactly as written.",
+   note="ES-defined names per receiver kind are frozen from node 20 at development time (golden/es_receiver_names.json); the engine's array-valued arguments object is treated as an array. An open-world negative claim: gadget chains outside the access-form grammar are not reached.",
+   ref="4/C03")
 NA = {}
 m = {
  "version": 1,
